@@ -231,7 +231,7 @@ def fam_C02(tier, seed):
                                                           [("V", dict(min=0, max=4)), ("F", dict(dur=2)), ("V", dict(min=0, allowed=[1, 3]))],
                                                           (False, True)):
         b = PB(4, tag="work")
-        a = b.task("A", k1, work=work, **kw1)
+        a = b.task("A", k1, work=work, optional=(work == 2 and p1 == 1), **kw1)
         w1, w2 = b.worker("W1", prod=p1), b.worker("W2", prod=p2)
         if sel:
             s = b.select("S", [w1, w2], n=1, kind="min")
@@ -349,7 +349,7 @@ def fam_C03(tier, seed):
     # N tasks in time intervals
     for ks, op, n, kind, ivs in itertools.product([("F1", "F1"), ("F2", "F1", "Z"), ("V", "F1")], [(), (0,)],
                                                   (0, 1, 2, 3), ("exact", "min", "max"),
-                                                  ([[0, 2]], [[1, 3]], [[0, 1], [2, 4]], [[0, 2], [2, 4]])):
+                                                  ([[0, 2]], [[1, 3]], [[0, 1], [2, 4]], [[0, 2], [2, 4]], [[0, 3], [1, 4]], [[0, 2], [0, 4]])):
         if n > len(ks):
             continue
         b = PB(4, tag="ScheduleNTasksInTimeIntervals")
